@@ -943,6 +943,7 @@ const (
 	precElvis
 	precOr
 	precAnd
+	precEquality
 	precCompare
 	precAdd
 	precMul
@@ -953,7 +954,8 @@ const (
 var binaryPrecedence = map[string]int{
 	"?:": precElvis,
 	"or": precOr, "and": precAnd,
-	"==": precCompare, "!=": precCompare, "<": precCompare, "<=": precCompare, ">": precCompare, ">=": precCompare,
+	"==": precEquality, "!=": precEquality,
+	"<": precCompare, "<=": precCompare, ">": precCompare, ">=": precCompare,
 	"+": precAdd, "-": precAdd,
 	"*": precMul, "/": precMul, "%": precMul,
 }
